@@ -139,7 +139,7 @@ def _run_forked(mod, work, nproc, seen_event, deadline):
             os.close(w)
             running[r] = [pid, task, time.time(), b""]
         if seen_event.is_set() and grace_until is None:
-            grace_until = time.time() + 120
+            grace_until = time.time() + 45
             pending.clear()
         rl, _, _ = select.select(list(running), [], [], 0.5)
         for fd in rl:
